@@ -55,7 +55,7 @@ func modules(t *sg.TypeSpec, hops int) []*sg.Mod {
 	// with hops, the last pattern of a string type may move from the innermost typedef to the leaf's own refinement of
 	// the outermost one: the value space is the same
 	var own []string
-	if hops > 0 && t.Name == "string" && len(t.Patterns) > 0 && t.PatMsg == "" && len(t.Patterns)%2 == 1 {
+	if hops > 0 && t.Name == "string" && len(t.Patterns) > 0 && t.PatMsg == "" && t.PatTag == "" && len(t.Patterns)%2 == 1 {
 		cp := *t
 		own = []string{t.Patterns[len(t.Patterns)-1]}
 		cp.Patterns = append([]string(nil), t.Patterns[:len(t.Patterns)-1]...)
@@ -144,8 +144,12 @@ func (g *gen) typ(depth int) *sg.TypeSpec {
 		b := vt.Builtin(name, 0)
 		if g.pick(3, "ranged") != 1 {
 			t.Range = g.rangeOver(b.Ranges[0].Lo, b.Ranges[0].Hi, 0)
+			// message and app-tag of a restriction are independent of each other
 			if g.pick(3, "msg") == 1 {
-				t.RangeMsg, t.RangeTag = "custom range message", "custom-range-tag"
+				t.RangeMsg = "custom range message"
+			}
+			if g.pick(3, "tag") == 1 {
+				t.RangeTag = "custom-range-tag"
 			}
 		}
 		return t
@@ -158,6 +162,9 @@ func (g *gen) typ(depth int) *sg.TypeSpec {
 			if g.pick(3, "msg") == 1 {
 				t.RangeMsg = "custom decimal message"
 			}
+			if g.pick(3, "tag") == 1 {
+				t.RangeTag = "custom-decimal-tag"
+			}
 		}
 		return t
 	case 4, 5:
@@ -166,6 +173,9 @@ func (g *gen) typ(depth int) *sg.TypeSpec {
 			t.Length = []string{"0..3", "2", "1..2|4|6..8", "3..max", "min..1|5"}[g.pick(5, "lenx")]
 			if g.pick(3, "lmsg") == 1 {
 				t.LenMsg = "custom length message"
+			}
+			if g.pick(3, "ltag") == 1 {
+				t.LenTag = "custom-length-tag"
 			}
 		}
 		np := g.pick(3, "npat")
@@ -178,6 +188,9 @@ func (g *gen) typ(depth int) *sg.TypeSpec {
 		}
 		if np > 0 && g.pick(3, "pmsg") == 1 {
 			t.PatMsg = "custom pattern message"
+		}
+		if np > 0 && g.pick(3, "ptag") == 1 {
+			t.PatTag = "custom-pattern-tag"
 		}
 		return t
 	case 6:
@@ -421,41 +434,37 @@ func checkCase(c Case) fw.Outcome {
 				out.Violation = fmt.Sprintf("rejection of %q carries path %q, want %q\n%s", v, p, wantPath, src)
 				return out
 			}
-			// custom message / app-tag of the violated restriction
-			switch {
-			case c.Type.RangeMsg != "" && isNumeric(v) && len(c.Type.Members) == 0:
-				if msg != c.Type.RangeMsg {
-					out.Violation = fmt.Sprintf("out-of-range value %q: message %q, custom error-message is %q\n%s", v, msg, c.Type.RangeMsg, src)
-					return out
-				}
-				if c.Type.RangeTag != "" && tag != c.Type.RangeTag {
-					out.Violation = fmt.Sprintf("out-of-range value %q: app-tag %q, custom error-app-tag is %q\n%s", v, tag, c.Type.RangeTag, src)
-					return out
-				}
-			case c.Type.Name == "string" && c.Type.LenMsg != "" && len(c.Type.Members) == 0:
-				lenOK := false
-				for _, iv := range sp.Lengths {
-					n := big.NewInt(int64(len([]rune(v))))
-					if n.Cmp(iv.Lo) >= 0 && n.Cmp(iv.Hi) <= 0 {
-						lenOK = true
+			// custom message / app-tag of the violated restriction (plain types: for a union the member that speaks is
+			// not determined)
+			if len(c.Type.Members) == 0 {
+				wantMsg, wantTag, what := "", "", ""
+				isInt := c.Type.Name == "int8" || strings.HasPrefix(c.Type.Name, "int") || strings.HasPrefix(c.Type.Name, "uint")
+				switch {
+				case (isInt || c.Type.Name == "decimal64") && isNumeric(v):
+					wantMsg, wantTag, what = c.Type.RangeMsg, c.Type.RangeTag, "out-of-range"
+					if isInt && wantTag == "" {
+						wantTag = "range-violation" // the documented default
+					}
+				case c.Type.Name == "string":
+					lenOK := false
+					for _, iv := range sp.Lengths {
+						n := big.NewInt(int64(len([]rune(v))))
+						if n.Cmp(iv.Lo) >= 0 && n.Cmp(iv.Hi) <= 0 {
+							lenOK = true
+						}
+					}
+					if !lenOK {
+						wantMsg, wantTag, what = c.Type.LenMsg, c.Type.LenTag, "wrong-length"
+					} else {
+						wantMsg, wantTag, what = c.Type.PatMsg, c.Type.PatTag, "pattern-violating"
 					}
 				}
-				if !lenOK && msg != c.Type.LenMsg {
-					out.Violation = fmt.Sprintf("wrong-length value %q: message %q, custom error-message is %q\n%s", v, msg, c.Type.LenMsg, src)
+				if wantMsg != "" && msg != wantMsg {
+					out.Violation = fmt.Sprintf("%s value %q: message %q, custom error-message is %q\n%s", what, v, msg, wantMsg, src)
 					return out
 				}
-				if lenOK && c.Type.PatMsg != "" && msg != c.Type.PatMsg {
-					out.Violation = fmt.Sprintf("pattern-violating value %q: message %q, custom error-message is %q\n%s", v, msg, c.Type.PatMsg, src)
-					return out
-				}
-			case c.Type.Name == "string" && c.Type.PatMsg != "" && c.Type.LenMsg == "" && c.Type.Length == "" && len(c.Type.Members) == 0:
-				if msg != c.Type.PatMsg {
-					out.Violation = fmt.Sprintf("pattern-violating value %q: message %q, custom error-message is %q\n%s", v, msg, c.Type.PatMsg, src)
-					return out
-				}
-			case (c.Type.Name == "int8" || strings.HasPrefix(c.Type.Name, "int") || strings.HasPrefix(c.Type.Name, "uint")) && c.Type.RangeTag == "" && isNumeric(v):
-				if tag != "range-violation" {
-					out.Violation = fmt.Sprintf("out-of-range value %q: app-tag %q, the documented default is range-violation\n%s", v, tag, src)
+				if wantTag != "" && tag != wantTag {
+					out.Violation = fmt.Sprintf("%s value %q: app-tag %q, the error-app-tag to report is %q\n%s", what, v, tag, wantTag, src)
 					return out
 				}
 			}
